@@ -15,24 +15,34 @@ Definition pf_val := Eval vm_compute in
              end) cases_val.
 Print pf_val.
 
-Definition c26_trusted_kept (o : op) (pre post : pl) : bool :=
+Definition c26_trusted_kept (o : xop) (pre post : pl) : bool :=
   match o with
-  | SetAllUntrusted => true
-  | _ =>
+  | Restart _ _ _ _ => true          (* a restart re-derives trust from the default connections *)
+  | Op SetAllUntrusted => true
+  | Op o' =>
     forallb (fun e : str * peer =>
       negb (p_trusted (snd e))
-      || (match o with RemovePeer a => str_eqb a (fst e) | _ => false end)
+      || (match o' with RemovePeer a => str_eqb a (fst e) | _ => false end)
       || match pget (fst e) post with Some q => p_trusted q | None => false end) pre
   end.
-Fixpoint c26_steps_pf (max : Z) (allow : bool) (pre : pl) (steps : list (op * out * pl)) : bool :=
+Definition c26_list_ok (max : Z) (allow : bool) (d : pl) : bool :=
+  forallb (fun e : str * peer => valid_form_b allow (fst e)) d.
+Fixpoint c26_steps_pf (max : Z) (allow : bool) (pre : pl) (steps : list (xop * out * pl)) : bool :=
   match steps with
   | [] => true
   | (o, r, d) :: rest =>
-      forallb (fun e : str * peer => valid_form_b allow (fst e)) d
+      c26_list_ok max allow d
       && (negb ((0 <? max) && (plen pre <=? max)) || (plen d <=? max))
       && c26_trusted_kept o pre d
       && c26_steps_pf max allow d rest
   end.
+(* start: whatever the cache file holds, the list only has addresses valid under
+   the configured localhost policy, and at most Max of them *)
+Definition pf_start := Eval vm_compute in
+  failing (fun c : Z * bool * bool * list fentry * list str * list str * Z * pl =>
+             let '(max, allow, disable, es, kept, defaults, now, d) := c in
+             c26_list_ok max allow d && (negb (0 <? max) || (plen d <=? max))) cases_start.
+Print pf_start.
 Definition pf_ops := Eval vm_compute in
-  failing (fun c : Z * bool * list (op * out * pl) => let '(max, allow, steps) := c in c26_steps_pf max allow [] steps) cases_ops.
+  failing (fun c : Z * bool * pl * list (xop * out * pl) => let '(max, allow, l0, steps) := c in c26_steps_pf max allow l0 steps) cases_ops.
 Print pf_ops.
